@@ -631,9 +631,14 @@ def run_haplotag(
                 read_to_haplotype = None
 
             assert not include_unmapped or len(regions) == 1
+            previous_end = 0
             for start, end in regions:
                 logger.debug("Working on %s:%s-%s", chrom, start, end)
                 for alignment in bam_reader.fetch(contig=chrom, start=start, stop=end):
+                    if alignment.reference_start < previous_end:
+                        # The alignment also overlaps the previous region
+                        # and has been written already
+                        continue
                     n_alignments += 1
                     haplotype_name = "none"
                     phaseset = "none"
@@ -679,6 +684,7 @@ def run_haplotag(
 
                     if n_alignments % 100_000 == 0:
                         logger.debug(f"Processed {n_alignments} alignment records.")
+                previous_end = end
         if include_unmapped:
             logger.debug("Copying unmapped reads to output")
             for alignment in bam_reader.fetch(contig="*"):
